@@ -341,6 +341,7 @@ class World:
     def __init__(self):
         self.fns = {}          # full name -> Function (first seen)
         self.by_qn = {}
+        self.by_full = {}
         self.neverret = None
         self._ecfg = {}
 
@@ -350,7 +351,18 @@ class World:
                 continue
             self.fns.setdefault(f.full, f)
             self.by_qn.setdefault(f.qn, []).append(f)
+            self.by_full.setdefault(f.full, []).append(f)
             resolve_const_locals(f)
+
+    def resolve(self, call, caller=None):
+        """definition of the callee of `call`; overloads sharing a printed name are told apart by the declaration id"""
+        cands = self.by_full.get(call.get("cfull") or "", [])
+        if len(cands) > 1 and caller is not None:
+            same = [g for g in cands if g.facts is caller.facts and g.d.get("decl") == call.get("cdecl")]
+            if same:
+                return same[0]
+            return None
+        return cands[0] if cands else None
 
     def compute_neverret(self):
         """least fixpoint: a function never returns normally if no path entry->exit avoids throws,
@@ -547,6 +559,15 @@ class ECFG:
                      and not (allf and any(v.startswith("@") for v in f[4]))}
         if n.get("k") == "Call" and n.get("callee") == "FEAT::assertion" and n.get("a"):
             facts = set(facts) | set(atom_facts(n["a"][0], True))
+        if n.get("k") == "MCall" and n.get("n") == "resize" and (n.get("ccls") or "").startswith("std::") and n.get("a"):
+            o = strip(n.get("obj"))
+            if o is not None and (o.get("k") == "Ref" or is_this_field(o)):
+                v = o["n"] if o.get("k") == "Ref" else "@" + o["n"]
+                sz = "%s.size()" % norm(o)
+                REG.setdefault(sz, {"k": "Ref", "n": sz, "dk": "local"})
+                a_, b_ = sorted((norm(n["a"][0]), sz))
+                if v not in vars_of(n["a"][0]):
+                    facts = set(facts) | {("==", a_, b_, True, frozenset(vars_of(n["a"][0]) | {v}), frozenset([v]) | shape_vars(n["a"][0]))}
         if n.get("k") == "MCall" and n.get("n") in ("push_back", "emplace_back", "push_front", "emplace_front", "push") \
            and (n.get("ccls") or "").startswith("std::"):
             o = strip(n.get("obj"))
@@ -855,6 +876,12 @@ def declare_rules(ck):
             "for every child block the format description (doxy_in/mesh_format.dox) calls mandatory, the parent parser's markup() "
             "records that the block was seen (sets a field or hands one to the child parser by reference) and close() has a branch "
             "on that field whose failing edge throws Xml::*Error (input class: a file truncated between two blocks)", 5)
+    ck.rule("E2.loop-range",
+            "in the parser callbacks a counted loop that subscripts a std container field V with its loop variable stays inside V, and if "
+            "it tests V[i] in a condition (completeness loops `for all i: flag.at(i) == 0 -> throw`) it visits every entry of V: the "
+            "bound is V.size() itself or provably equal to it (container sizes from the class's own constant resize() calls, "
+            "template constants folded, or from the function's facts); bounded model 0..5 (input class: a mesh part whose "
+            "top-dimensional <Mapping> block is missing)", 7)
     ck.rule("E7.scanner-stack",
             "every back()/pop_back() on the scanner's markup stack is dominated by a non-empty check, in the function itself or "
             "(if the function does not shrink the stack before) at every call site inside the class (input class: surplus "
@@ -869,7 +896,9 @@ def declare_rules(ck):
             "every markup MeshFileWriter::write (callees and all chart write() overrides inlined) emits is accepted by the reader "
             "class that parses its parent (markup() name comparisons), its attributes are registered in that reader's attribs(), "
             "the reader's mandatory attributes are emitted unconditionally and literal attribute values belong to the values the "
-            "reader compares with (input class: any object of that kind; write -> read throws)", 23)
+            "reader compares with; composite values (mesh type string) agree field by field with the reader's split: count, literals, "
+            "and for numeric fields the constant the reader requires of that token / the getter that publishes it, per instantiation "
+            "incl. shape dimension != world dimension (input class: any object of that kind; write -> read throws)", 33)
     ck.rule("E12.line-per-markup",
             "every opening/closing markup the writer emits is directly followed by a line break, also at the end of a write function "
             "(the scanner accepts one markup per line; input class: any atlas containing that chart)", 45)
@@ -936,6 +965,7 @@ def run(tier):
     rule_attr_index(ck, W, facts)
     rule_mandatory(ck, W, pcs, facts)
     rule_children(ck, W, pcs)
+    rule_loop_range(ck, W, pcs, facts)
     rule_vocabulary(ck, W, facts, pcs)
     rule_dim_binding(ck, W, facts)
     rule_buffer_layout(ck, W, gfacts)
@@ -950,8 +980,7 @@ def run(tier):
     ck.assume("the documented exceptions are Xml::SyntaxError / GrammarError / ContentError (xml_scanner.hpp); std::out_of_range from deque::at is "
               "not a documented rejection")
     ck.assume("mandatory child blocks are transcribed from doxy_in/mesh_format.dox (anchor sentences are re-checked on every run)")
-    ck.note("not decided: byte-for-byte idempotence of write->read->write, printed precision of real numbers, termination, the mesh type string "
-            "conformal:<shape>:<d>:<w> (writer aux_meshtype_string vs reader split/compare), target-set (Mapping) indices against the parent mesh "
+    ck.note("not decided: byte-for-byte idempotence of write->read->write, printed precision of real numbers, termination, target-set (Mapping) indices against the parent mesh "
             "(unknown at parse time), negative partition sizes, property-map values containing '#', '&' or '=', permutation serialisation "
             "(no such code in the tree), std::string internals")
     return ck.finish(
@@ -2285,7 +2314,7 @@ class TagParser:
                 self.pending = None
         elif self.state == "value":
             self.ahole = True
-            self.cur.vals.append((self.aname, node))
+            self.cur.vals.append((self.aname, node, where))
         else:
             self.problems.append("a computed value `%s` is emitted inside the markup name/attribute list of <%s" % (render(node)[:40], self.name))
 
@@ -2427,6 +2456,253 @@ def attr_value_literals(fn, attrs_param):
     return out
 
 
+
+# composite attribute values -------------------------------------------------------------------------
+
+def flatten_plus(n):
+    n = strip(n)
+    if n.get("k") == "OpCall" and n.get("op") == "+" and len(n.get("a", [])) == 2:
+        return flatten_plus(n["a"][0]) + flatten_plus(n["a"][1])
+    if n.get("k") == "Bin" and n.get("op") == "+" and ("String" in str(n.get("t", "")) or False):
+        return flatten_plus(n["lhs"]) + flatten_plus(n["rhs"])
+    return [n]
+
+
+def literal_of_call(W, caller, n, depth=0):
+    """string literal a call always returns (single `return "lit";`), resolved by declaration"""
+    n = strip(n)
+    if n is None or n.get("k") not in ("Call", "MCall") or depth > 3:
+        return None
+    g = W.resolve(n, caller)
+    if g is None:
+        return None
+    rets = [x for x in g.nodes() if x.get("k") == "Return"]
+    if len(rets) != 1:
+        return None
+    v = str_value(rets[0].get("e"))
+    if v is None:
+        x = strip(rets[0].get("e"))
+        while x is not None and x.get("k") in ("Construct", "TempObj") and len(x.get("a", [])) == 1:
+            x = strip(x["a"][0])
+        v = str_value(x) if x is not None else None
+    return v
+
+
+def compose_value(W, caller, node):
+    """pieces [("lit", text) | ("val", expr)] of a value the writer builds by string concatenation in a helper
+    (`return String("conformal:") + name() + ":" + stringify(d) + ...`), or None"""
+    node = strip(node)
+    if caller is None or node is None or node.get("k") not in ("Call", "MCall"):
+        return None
+    g = W.resolve(node, caller)
+    if g is None:
+        return None
+    rets = [x for x in g.nodes() if x.get("k") == "Return"]
+    if len(rets) != 1:
+        return None
+    ops = flatten_plus(rets[0].get("e"))
+    if len(ops) < 2:
+        return None
+    pieces = []
+    for o in ops:
+        v = str_value(o)
+        x = strip(o)
+        while v is None and x is not None and x.get("k") in ("Construct", "TempObj") and len(x.get("a", [])) == 1:
+            x = strip(x["a"][0])
+            v = str_value(x)
+        if v is None:
+            v = literal_of_call(W, g, o)
+        if v is not None:
+            pieces.append(("lit", v))
+        elif strip(o).get("k") == "Call" and strip(o).get("callee") == "FEAT::stringify" and strip(o).get("a"):
+            pieces.append(("val", strip(o)["a"][0]))
+        else:
+            pieces.append(("val", strip(o)))
+    return pieces
+
+
+def split_fields(pieces, sep):
+    """fields (each a list of pieces) of a composed value split at the separator literal"""
+    fields = [[]]
+    for kind, v in pieces:
+        if kind == "val":
+            fields[-1].append((kind, v))
+            continue
+        parts = v.split(sep)
+        for j, part in enumerate(parts):
+            if j > 0:
+                fields.append([])
+            if part:
+                fields[-1].append(("lit", part))
+    return fields
+
+
+def quantity(node):
+    """(integer value, role) of a constant expression; role 'shape' if it is Shape::<...>::dimension by declaration"""
+    try:
+        val = evalnode(node, {})
+    except Unknown:
+        val = None
+    role = None
+    for x in walk(node):
+        if x.get("k") == "Ref" and re.match(r"^FEAT::Shape::\w+<.*>::dimension$", x.get("qn") or ""):
+            role = "shape"
+    return val, role
+
+
+def trace_attr(f, expr, depth=0):
+    """attribute name K if expr is (derived from) attrs.find(K)->second, following local/field bindings"""
+    for z in walk(expr):
+        if z.get("k") == "MCall" and z.get("n") == "find" and z.get("a") and str_value(z["a"][0]) is not None:
+            return str_value(z["a"][0])
+    if depth > 3:
+        return None
+    r = root_var(expr)
+    if r is None:
+        return None
+    for n in f.nodes():
+        tgt, init = None, None
+        if n.get("k") == "Var" and n.get("init") is not None:
+            tgt, init = n["n"], n["init"]
+        elif n.get("k") == "OpCall" and n.get("op") == "=" and len(n.get("a", [])) == 2:
+            tgt, init = root_var(n["a"][0]), n["a"][1]
+        elif n.get("k") == "Assign" and n.get("op") == "=":
+            tgt, init = root_var(n["lhs"]), n["rhs"]
+        if tgt == r and init is not None and root_var(init) != r:
+            k = trace_attr(f, init, depth + 1)
+            if k is not None:
+                return k
+    return None
+
+
+def token_table(W, f, attr, cfs):
+    """how reader function f takes attribute `attr` apart: separator, number of tokens, and per token index the literals
+    it is compared with / the constant its parsed value must equal / the getter that publishes it"""
+    for n in f.nodes():
+        if not (n.get("k") == "Var" and n.get("init") is not None):
+            continue
+        init = strip(n["init"])
+        if not (init.get("k") == "MCall" and init.get("callee") == "FEAT::String::split_by_string" and init.get("a")):
+            continue
+        if trace_attr(f, init.get("obj")) != attr:
+            continue
+        D = n["n"]
+        sep = str_value(init["a"][0])
+        x = strip(init["a"][0])
+        while sep is None and x is not None and x.get("k") in ("Construct", "TempObj") and len(x.get("a", [])) == 1:
+            x = strip(x["a"][0])
+            sep = str_value(x)
+        tt = {"sep": sep, "count": None, "tok": {}, "deque": D}
+
+        def tok_index(x):
+            x = strip(x)
+            if x is not None and x.get("k") == "MCall" and x.get("n") in ("at", "operator[]") and strip(x.get("obj")).get("k") == "Ref" \
+               and strip(x["obj"])["n"] == D and x.get("a") and strip(x["a"][0]).get("k") == "Int":
+                return int(strip(x["a"][0])["v"])
+            return None
+        targets = {}
+        for m in f.nodes():
+            c = cmp_parts(m) if m.get("k") in ("Bin", "OpCall") else None
+            if c:
+                for a, b in ((c[1], c[2]), (c[2], c[1])):
+                    sa = strip(a)
+                    if sa.get("k") == "MCall" and sa.get("n") == "size" and strip(sa.get("obj")).get("k") == "Ref" and strip(sa["obj"])["n"] == D and c[0] in ("!=", "=="):
+                        try:
+                            tt["count"] = evalnode(b, {})
+                        except Unknown:
+                            pass
+                    k = tok_index(a)
+                    if k is not None and c[0] in ("==", "!="):
+                        lit = str_value(b)
+                        sb = strip(b)
+                        if lit is None and sb.get("k") == "Ref" and sb.get("dk") == "local":
+                            li = local_init(f, sb["n"])
+                            lit = str_value(li) if li is not None else None
+                            if lit is None and li is not None:
+                                lit = literal_of_call(W, f, li)
+                        if lit is not None:
+                            tt["tok"].setdefault(k, {}).setdefault("lits", set()).add(lit)
+            if m.get("k") == "MCall" and m.get("callee") == "FEAT::String::parse" and m.get("a"):
+                k = tok_index(m.get("obj"))
+                if k is not None:
+                    tt["tok"].setdefault(k, {})["parsed"] = m["a"][0]
+                    targets[norm(m["a"][0])] = k
+        for m in f.nodes():
+            c = cmp_parts(m) if m.get("k") in ("Bin", "OpCall") else None
+            if c and c[0] in ("==", "!="):
+                for a, b in ((c[1], c[2]), (c[2], c[1])):
+                    if norm(a) in targets:
+                        val, role = quantity(b)
+                        if val is not None:
+                            t = tt["tok"][targets[norm(a)]]
+                            t["expect"] = val
+                            t["erole"] = role
+                            t["enode"] = b
+        # getter roles of parse targets that are fields
+        for k, t in tt["tok"].items():
+            p = t.get("parsed")
+            if p is not None and is_this_field(p):
+                fld = strip(p)["n"]
+                for g in cfs:
+                    rets = [x for x in g.nodes() if x.get("k") == "Return"]
+                    if len(rets) == 1 and not g.params and is_this_field(rets[0].get("e")) and strip(rets[0]["e"])["n"] == fld:
+                        t["getter"] = g.name
+        return tt
+    return None
+
+
+def compare_composite(comp, site, mesh, pieces, tt, rf, wf, vnode):
+    rname = "%s::%s" % (short(rf.cls), rf.name)
+
+    def rec(k):
+        return comp.setdefault((site, k), {"probs": [], "ok": [], "fn": wf, "node": vnode})
+    if not tt["sep"]:
+        rec("count")["probs"].append("%s: separator of the split not a literal" % rname)
+        return
+    fields = split_fields(pieces, tt["sep"])
+    r = rec("count")
+    if tt["count"] is not None and tt["count"] != len(fields):
+        r["probs"].append("writer composes %d '%s'-separated fields, %s requires %d" % (len(fields), tt["sep"], rname, tt["count"]))
+    else:
+        r["ok"].append("%d fields" % len(fields))
+    for k, fld in enumerate(fields):
+        r = rec(k)
+        t = tt["tok"].get(k, {})
+        if len(fld) != 1:
+            r["probs"].append("field %d of the writer's value is not a single literal or value" % k)
+            continue
+        kind, v = fld[0]
+        if kind == "lit":
+            if "lits" in t and v not in t["lits"]:
+                r["probs"].append("[%s] writer puts \"%s\" into field %d, %s accepts only %s there" % (mesh, v, k, rname, sorted(t["lits"])))
+            elif "parsed" in t and not re.fullmatch(r"-?\d+", v):
+                r["probs"].append("[%s] writer puts the text \"%s\" into field %d, %s parses that token as a number" % (mesh, v, k, rname))
+            else:
+                r["ok"].append("%s: \"%s\"" % (rname, v))
+            continue
+        val, role = quantity(v)
+        if "lits" in t and "parsed" not in t:
+            r["probs"].append("[%s] writer puts the number `%s` into field %d, %s compares that token with %s" % (mesh, render(v)[:30], k, rname, sorted(t["lits"])))
+            continue
+        if "expect" in t and val is not None and t["expect"] != val:
+            r["probs"].append("[%s] writer puts `%s` = %d into field %d, but %s requires token %d == `%s` = %d: the reader rejects the writer's own output" % (
+                mesh, render(v)[:40], val, k, rname, k, render(t["enode"])[:40], t["expect"]))
+            continue
+        if "expect" in t and role and t.get("erole") and role != t["erole"]:
+            r["probs"].append("[%s] field %d carries the %s dimension, token %d is compared with another quantity" % (mesh, k, role, k))
+            continue
+        g = t.get("getter")
+        if g and role == "shape" and "shape" not in g:
+            r["probs"].append("[%s] writer puts the shape dimension `%s` into field %d, %s publishes token %d as %s()" % (mesh, render(v)[:40], k, rname, k, g))
+            continue
+        if g and role is None and val is not None and "shape" in g:
+            sd = re.search(r"(?:Simplex|Hypercube)<(\d)>", mesh or "")
+            if sd and int(sd.group(1)) != val:
+                r["probs"].append("[%s] writer puts %d into field %d, %s publishes token %d as %s() (shape dimension is %s)" % (mesh, val, k, rname, k, g, sd.group(1)))
+                continue
+        r["ok"].append("%s: token %d %s" % (rname, k, ("== %s" % t["expect"]) if "expect" in t else ("-> %s()" % g if g else "")))
+
+
 def rule_vocabulary(ck, W, facts, pcs):
     pc_by_cls = {pc.cls: pc for pc in pcs}
     entries = [f for f in facts.functions if f.tk != "pattern" and f.cls == "FEAT::Geometry::MeshFileWriter" and f.name == "write" and len(f.params) == 4]
@@ -2436,6 +2712,9 @@ def rule_vocabulary(ck, W, facts, pcs):
     voc = {}      # tag path -> list of problems
     lines = {}    # (path, kind) -> problems
     info = {}
+    comp = {}     # (attribute site, field) -> {"probs", "fn", "node"}
+    cfs_all = class_functions(facts)
+    nonsquare = set()
     for entry in sorted(entries, key=lambda f: f.full):
         mesh = None
         m = re.search(r"RootMeshNode<(.*)> \*$", entry.type(entry.params[0]["t"]) or "")
@@ -2493,6 +2772,26 @@ def rule_vocabulary(ck, W, facts, pcs):
                         for v in sorted(spec["values"]):
                             if v.strip() not in lits[a]:
                                 probs.append("writer emits %s=\"%s\" but %s::create only knows the values %s" % (a, v, pc.short, sorted(lits[a])))
+            # composite attribute values ("conformal:<shape>:<d>:<w>"): field k of the writer's composition <-> token k of the reader
+            for v in tag.vals:
+                aname, vnode, where = v
+                wf = where[0] if isinstance(where, tuple) else None
+                comp_ = compose_value(W, wf, vnode)
+                if comp_ is None:
+                    continue
+                readers = [create]
+                if len(path.split("/")) == 1:
+                    readers += facts.find(qn_re=r"MeshFileReader::read_root_markup$")
+                done = False
+                for rf in readers:
+                    tt = token_table(W, rf, aname, cfs_all.get(rf.cls, [rf]))
+                    if tt is None:
+                        continue
+                    done = True
+                    compare_composite(comp, "<%s>@%s" % (path, aname), mesh, comp_, tt, rf, wf, vnode)
+                if not done:
+                    comp.setdefault(("<%s>@%s" % (path, aname), "reader"), {"probs": [], "fn": wf, "node": vnode})["probs"].append(
+                        "writer composes this attribute from several fields but no reader function splits it")
             kids = reader_children(W, pc_by_cls, pc.m["markup"])
             seen = set()
             for ch in tag.children:
@@ -2507,6 +2806,9 @@ def rule_vocabulary(ck, W, facts, pcs):
                 else:
                     match(ch, cp, kids[ch.name], True)
 
+        md = re.search(r"(?:Simplex|Hypercube)<(\d)>, (\d)", mesh or "")
+        if md and md.group(1) != md.group(2):
+            nonsquare.add(mesh)
         for top in tp.root.children:
             rn = root_name(rpc.m["create"])
             path = top.name
@@ -2519,6 +2821,14 @@ def rule_vocabulary(ck, W, facts, pcs):
         if isinstance(w, tuple) and w[0] is not None:
             return w[0].file, strip(w[1]).get("l") if isinstance(w[1], dict) else None
         return None, None
+
+    if comp and not nonsquare:
+        ck.incomplete("E12.vocabulary", "no mesh instantiation with shape dimension != world dimension: the order of the dimension fields of "
+                      "composite attribute values cannot be decided")
+    for (site, k), rec in sorted(comp.items(), key=lambda kv: (kv[0][0], str(kv[0][1]))):
+        ck.ob("E12.vocabulary", "%s#%s" % (site, k), not rec["probs"],
+              "; ".join(sorted(set(rec["probs"]))) or "writer field and reader token carry the same quantity (%s)" % "; ".join(sorted(set(rec.get("ok", [])))[:3]),
+              rec["fn"].file if rec.get("fn") is not None else None, strip(rec["node"]).get("l") if isinstance(rec.get("node"), dict) else None)
 
     for path, probs in sorted(voc.items()):
         fl, ln = loc(info.get(path))
@@ -2580,7 +2890,7 @@ def rule_dim_binding(ck, W, facts):
                     vs = sorted(tag.attrs["dim"]["values"])
                     dv = vs[0].strip() if len(vs) == 1 else None
                 else:
-                    nodes = [n for a, n in tag.vals if a == "dim"]
+                    nodes = [v[1] for v in tag.vals if v[0] == "dim"]
                     if len(nodes) == 1:
                         try:
                             dv = str(evalnode(nodes[0], {}))      # template constants are folded
@@ -3314,3 +3624,128 @@ def rule_ini(ck, W, pfacts):
             ok = False
             detail = "the section line is read by a branch that does not add a section"
         ck.ob("E12.ini-delimiters", key, ok, detail, wr.file, strip(where[1]).get("l") if where else wr.line)
+
+
+# -------------------------------------------------------------------------------------------------
+# E2.loop-range: loops over flag/size containers of a parser cover exactly the container they test
+# -------------------------------------------------------------------------------------------------
+
+def class_size_table(cfs, all_parser_fns):
+    """{field: int} for std containers of a parser class that are sized once, by `field.resize(<constant>)` (template constants
+    folded), and never grown/shrunk elsewhere (no other mutator on a field of that name in any parser class)"""
+    sizes, bad = {}, set()
+    for g in cfs:
+        for n in g.nodes():
+            if n.get("k") == "MCall" and n.get("n") == "resize" and is_this_field(n.get("obj")) and n.get("a"):
+                fld = strip(n["obj"])["n"]
+                try:
+                    v = evalnode(n["a"][0], {})
+                except Unknown:
+                    bad.add(fld)
+                    continue
+                if fld in sizes and sizes[fld] != v:
+                    bad.add(fld)
+                sizes[fld] = v
+    for g in all_parser_fns:
+        for n in g.nodes():
+            if n.get("k") == "MCall" and (n.get("ccls") or "").startswith("std::") and n.get("n") in STD_MUTATORS and n.get("n") != "resize" \
+               and is_this_field(n.get("obj")) and strip(n["obj"])["n"] in sizes and n.get("n") not in ("get", "str"):
+                bad.add(strip(n["obj"])["n"])
+            if n.get("k") == "OpCall" and n.get("op") == "=" and n.get("a") and is_this_field(n["a"][0]) and strip(n["a"][0])["n"] in sizes:
+                bad.add(strip(n["a"][0])["n"])
+    return {f: v for f, v in sizes.items() if f not in bad}
+
+
+def loop_header(n):
+    """(loop variable, lower bound int, bound node, inclusive) of `for(T i(lo); i < B; ++i)`"""
+    init, c = n.get("init"), strip(n.get("c"))
+    if init is None or init.get("k") != "Decl" or len(init.get("vars", [])) != 1 or c is None:
+        return None
+    v = init["vars"][0]
+    i0 = strip(v.get("init"))
+    if i0 is None or i0.get("k") != "Int":
+        return None
+    if c.get("k") != "Bin" or c["op"] not in ("<", "<=") or strip(c["lhs"]).get("k") != "Ref" or strip(c["lhs"])["n"] != v["n"]:
+        return None
+    return v["n"], int(i0["v"]), c["rhs"], c["op"] == "<="
+
+
+def rule_loop_range(ck, W, pcs, facts):
+    cfs_all = class_functions(facts)
+    all_parser_fns = [g for pc in pcs for g in cfs_all.get(pc.cls, [])]
+    seen = {}
+    for pc in pcs:
+        cfs = cfs_all.get(pc.cls, [])
+        table = class_size_table(cfs, all_parser_fns)
+        for mname in PARSER_METHODS:
+            f = pc.m[mname]
+            e = None
+            for loop in f.nodes():
+                if loop.get("k") != "For":
+                    continue
+                hd = loop_header(loop)
+                if hd is None:
+                    continue
+                iv, lo, bnode, incl = hd
+                # accesses of field containers subscripted with the loop variable
+                tested = set()
+                for x in walk(loop.get("body")):
+                    if x.get("k") == "If":
+                        for y in walk(x["c"]):
+                            c = cmp_parts(y) if y.get("k") in ("Bin", "OpCall") else None
+                            if c:
+                                tested.add(id(strip(c[1])))
+                                tested.add(id(strip(c[2])))
+                for x in walk(loop.get("body")):
+                    cont = idx = None
+                    if x.get("k") == "MCall" and x.get("n") in ("at", "operator[]") and x.get("a") and re.match(r"std::(deque|vector|array)", x.get("ccls") or ""):
+                        cont, idx = x.get("obj"), x["a"][0]
+                    elif x.get("k") == "OpCall" and x.get("op") == "[]" and re.match(r"std::(deque|vector|array)", x.get("ccls") or ""):
+                        cont, idx = x["a"][0], x["a"][1]
+                    if cont is None or not is_this_field(cont) or iv not in vars_of(idx):
+                        continue
+                    V = strip(cont)["n"]
+                    e = e or W.ecfg(f)
+                    key = "%s::%s/%s[%s]" % (pc.short, f.name, V, norm(idx).replace(iv, "i"))
+                    rec = seen.setdefault(key, {"probs": [], "fn": f, "line": x.get("l"), "n": 0})
+                    rec["n"] += 1
+                    size_s = "%s.size()" % V
+                    REG.setdefault(size_s, {"k": "Ref", "n": size_s, "dk": "local"})
+                    inv = {("==", *sorted((str(v), "%s.size()" % fld)), True, frozenset(), frozenset()) for fld, v in table.items()}
+                    for fa in list(inv):
+                        REG.setdefault(fa[1] if fa[1].endswith(".size()") else fa[2], {"k": "Ref", "n": fa[1] if fa[1].endswith(".size()") else fa[2], "dk": "local"})
+                    # safety: index below the container's size on every iteration
+                    fs = e.facts_at(x)
+                    if fs is None:
+                        continue
+                    try:
+                        wit, nok = small_model(set(fs) | inv, idx, REG[size_s])
+                    except Unknown as ex:
+                        ck.incomplete("E2.loop-range", "%s: cannot evaluate `%s` (%s)" % (key, render(x)[:50], ex))
+                        continue
+                    if wit is not None:
+                        rec["probs"].append("[%s] `%s` in the loop `%s %s %s` can leave the container: %s" % (
+                            first_targ(pc.cls) or "", render(x)[:40], iv, "<=" if incl else "<", render(bnode)[:40], fmt_witness(wit)))
+                        continue
+                    # coverage: a loop that tests V[i] in a rejecting/flagging condition has to visit every entry of V
+                    if id(x) in tested and norm(idx) == iv and lo == 0:
+                        bn = bnode if not incl else {"k": "Bin", "op": "+", "lhs": bnode, "rhs": {"k": "Int", "v": "1"}}
+                        last = {"k": "Bin", "op": "-", "lhs": REG[size_s], "rhs": {"k": "Int", "v": "1"}}
+                        fh = e.facts_at(loop["init"]) or set()
+                        same = norm(bnode) == size_s and not incl
+                        try:
+                            wit2, nok2 = (None, 1) if same else small_model(set(fh) | inv | {("<", "0", size_s, True, frozenset(), frozenset())}, last, bn)
+                        except Unknown as ex:
+                            ck.incomplete("E2.loop-range", "%s: cannot evaluate the loop bound `%s` (%s)" % (key, render(bnode)[:50], ex))
+                            continue
+                        if wit2 is not None:
+                            other = norm(bnode)
+                            known = V in table
+                            rec["probs"].append("[%s] the loop tests every `%s` but runs only to `%s`%s: entry %d of %s is never tested, a missing block of that dimension is accepted" % (
+                                first_targ(pc.cls) or "", render(x)[:40], render(bnode)[:40],
+                                (" = %d while %s has %d entries" % (wit2[2], V, wit2[1] + 1)) if known else " (nothing establishes that this equals %s)" % size_s,
+                                wit2[1], V))
+    for key, rec in sorted(seen.items()):
+        ck.ob("E2.loop-range", key, not rec["probs"],
+              "; ".join(sorted(set(rec["probs"]))[:3]) or "index inside the container; tested containers are covered completely (%d loop instance(s))" % rec["n"],
+              rec["fn"].file, rec["line"])
